@@ -94,6 +94,7 @@ const (
 	ErrPostPolicyConditionInvalidFormat
 	ErrEntityTooSmall
 	ErrEntityTooLarge
+	ErrIncompleteBody
 	ErrMissingFields
 	ErrMissingCredTag
 	ErrCredMalformed
@@ -361,6 +362,11 @@ var errorCodeResponse = map[ErrorCode]APIError{
 	ErrEntityTooLarge: {
 		Code:           "EntityTooLarge",
 		Description:    "Your proposed upload exceeds the maximum allowed object size.",
+		HTTPStatusCode: http.StatusBadRequest,
+	},
+	ErrIncompleteBody: {
+		Code:           "IncompleteBody",
+		Description:    "You did not provide the number of bytes specified by the Content-Length HTTP header.",
 		HTTPStatusCode: http.StatusBadRequest,
 	},
 	ErrMissingFields: {
